@@ -96,6 +96,15 @@ func judgeC07(c *core.Case, cfg *core.Config) core.Verdict {
 			v.Violation = fmt.Sprintf("%s:\n  reused VM: %s\n  fresh VM:  %s", where, runOut{gotR, errR, nil}, runOut{gotF, errF, nil})
 		case errR != nil && errR.Error() != errF.Error():
 			v.Violation = fmt.Sprintf("%s fails differently:\n  reused VM: %s\n  fresh VM:  %s", where, firstLine(errR.Error()), firstLine(errF.Error()))
+		case errR != nil:
+			// the whole rendered error (position, snippet, indicator) is also what a fresh VM reports for a program
+			// compiled from the same source that has never been run
+			if p2, err := compile(h.Progs[st[0]].Src, expr.Env(core.Env{}), expr.Optimize(h.Progs[st[0]].Opt)); err == nil {
+				var logN []string
+				if _, errN := vmRun(nil, p2, spec.Build(&logN)); errN == nil || errN.Error() != errR.Error() {
+					v.Violation = fmt.Sprintf("%s: the error differs from the one of a never-run copy of the program:\n  reused VM and program: %q\n  fresh VM and program:   %q", where, errR.Error(), fmt.Sprint(errN))
+				}
+			}
 		case errR == nil && !core.Exact(gotR, gotF):
 			v.Violation = fmt.Sprintf("%s:\n  reused VM: %s\n  fresh VM:  %s", where, core.Show(gotR), core.Show(gotF))
 		case strings.Join(logR, ";") != strings.Join(logF, ";"):
@@ -172,6 +181,8 @@ var c07Failing = []string{
 	`{a: 1, b: map(1..5, {[#, #, Arr[7]]})}`,
 	`L(1, 2) + map(Ys, {# / (J - J)})[0]`,
 	`filter(1..50, {# % 7 == 0})[20:][0]`,
+	// failures at several columns of one line, before and after multi-byte characters, beyond the first line
+	"'é日本' + S +\n Ss[50] + 'é' + Ss[I + 60]", "B ? Ss[70] + 'é' : ('日本' + Ss[80])", "I > 0 ?\n Ss[I + 90] : 'éé' + Ss[J + 90]",
 }
 
 // allocating programs (used with a small budget so that the cumulative allocation crosses it many times)
@@ -237,7 +248,9 @@ func genC07(t *rapid.T, cfg *core.Config) *core.Case {
 		h.Steps = append(h.Steps, [2]int{rapid.IntRange(0, nProg-1).Draw(t, "p"), rapid.IntRange(0, nEnv-1).Draw(t, "e")})
 		b := 0
 		if changing && rapid.IntRange(0, 3).Draw(t, "chg") == 0 {
-			b = rapid.SampledFrom([]int{100, 200, 500, 4000, 8000, 1000000}).Draw(t, "newbudget")
+			// (among them the exact needs of the allocating programs, and one more: a run that needs 120 elements
+			// completes under 121 whatever ran before it)
+			b = rapid.SampledFrom([]int{100, 200, 500, 4000, 8000, 1000000, 45, 46, 64, 65, 66, 99, 100, 101, 120, 121, 300, 301, 3000, 3001, 3002, 6001}).Draw(t, "newbudget")
 		}
 		h.Budgets = append(h.Budgets, b)
 	}
